@@ -281,7 +281,7 @@ def part2(rep, prog, ix):
                           'a QueryLargeTlv with sequence number 0 is not ignored: effects %s, record offsets changed %s' % ([e[0] for e in eff], [k[1] for k in changed]),
                           function='parseQueryLargeTlv', file=fnf)
                 continue
-            if seqd.contains(0):
+            if seqd.contains(0) and seq_zero_feasible(st):
                 rep.fail('R08.4', '%s|seq-unchecked' % region, 'QueryLargeTlv handled without testing the sequence number for 0', function='parseQueryLargeTlv', file=fnf)
                 continue
             rep.check(len(sn) == 1, 'R08.5', '%s|one-response' % region, 'QueryLargeTlv (sequence != 0) answered by %d frames' % len(sn), function='parseQueryLargeTlv', file=fnf)
@@ -384,6 +384,13 @@ def cells_case_table(rep, fs, st, send_entry, region, off_t):
     rep.check(st.same(e[2], C(HDR)) and st.same(e[4], off_t) and (st.same(e[5], n) or (st.prove_le(e[5], n) and st.prove_le(n, e[5]))), 'R08.1', key + '|copy',
               'payload copy goes to frame offset %s from data offset %s with %s bytes; expected 34, the requested offset %s and the payload length %s'
               % (short(st.canon(e[2])), short(st.canon(e[4])), short(st.canon(e[5])), short(off_t), short(n)), function='parseQueryLargeTlv', file=fnf)
+
+
+def seq_zero_feasible(st):
+    """Can the request's sequence number still be 0 on this path?  (The test may have been made on the two octets in any
+    form - `(b0 | b1) == 0`, a 16-bit compare in either byte order - so the question is put to the state, not to one term.)"""
+    s3 = st.fork()
+    return bool(s3.union(('in', 'frame', 30), ZERO) and s3.union(('in', 'frame', 31), ZERO) and s3.consistent())
 
 
 def unchanged_cell_plain(st, k, w, t):
